@@ -29,7 +29,7 @@ STALE_FIXED = True
 ST_IN_CACHE = True
 
 # True once /repo removes earlier output also when a build PANICS (StorageT not big enough: the documented refusal)
-PANIC_CLEANUP_FIXED = False
+PANIC_CLEANUP_FIXED = True
 K_PANIC = "generated files of an earlier build survive a build that panics because StorageT is not big enough"
 K_STALE = "stale generated file survives a build that fails with a grammar/lexer syntax error"
 K_LEXOUT = "lexer output of an earlier build survives a build that fails at the parser's conflict check"
